@@ -844,6 +844,12 @@ class BatchCompletionCallBack(object):
 
         # Schedule the next batch of tasks.
         with self.parallel._lock:
+            # Same guard as in __call__: this part of the callback can be
+            # delayed until the call it belongs to has been aborted and a new
+            # call started on the same Parallel instance. It must then neither
+            # count as a completion of the new call nor dispatch its tasks.
+            if self.parallel._call_id != self.parallel_call_id:
+                return
             self.parallel.n_completed_tasks += self.batch_size
             self.parallel.print_progress()
             if self.parallel._original_iterator is not None:
